@@ -11,7 +11,12 @@
                the id started before the search ended and was not definitely removed again (a
                successful remove called after that insert returned and finished before the search
                started) - i.e. under SOME linearization the item was live at some instant of the
-               search; its score must be the distance to the vector of such an insert. *)
+               search; its score must be the distance to the vector of such an insert.
+   pair      : one enumerated two-operation schedule (a writer parked at one of its yield points, a second
+               operation run meanwhile, the writer resumed) together with what the same two operations give
+               when run one after the other in either order (seq).  Quiescent checks as above, plus: nobody
+               hangs; the two outcomes are those of one of the two orders; an item that an exact-match
+               search finds after BOTH orders is found after the concurrent run (lost = <<>>). *)
 EXTENDS Integers, Sequences, FiniteSets, TLC, Json, HnswRankDef
 CONSTANT TraceFile
 Trace == ndJsonDeserialize(TraceFile)
@@ -35,6 +40,12 @@ QuiesceViol(t) ==
   \cup (IF DOMAIN s = {} \/ (Len(t.st.ep) = 4 /\ t.st.ep[2] = 0 /\ t.st.ep[3] = 1 /\ t.st.ep[1] \in DOMAIN s) THEN {} ELSE {<<l, "QuiescentEpLive">>})
   \cup (IF t.st.len = Len(t.st.live) THEN {} ELSE {<<l, "LenMismatch">>})
   \cup (IF \E i \in 1..Len(t.sr) : SearchBad(t.sr[i], s) THEN {<<l, "QuiescentSearch">>} ELSE {})
+
+PairViol(t) ==
+  (IF t.hung = 1 THEN {<<l, "Deadlock">>} ELSE {})
+  \cup (IF t.skip = 1 THEN {} ELSE QuiesceViol(t))
+  \cup (IF t.skip = 1 \/ t.panic # "" \/ \E j \in 1..Len(t.seq) : t.seq[j] = <<t.resw, t.reso>> THEN {} ELSE {<<l, "PairNotLinearizable">>})
+  \cup (IF Len(t.lost) = 0 THEN {} ELSE {<<l, "ReachabilityLost">>})
 
 OkCount(ops, kind) == Cardinality({j \in 1..Len(ops) : ops[j][3] = kind /\ ops[j][4] = "ok"})
 HistViol(t) ==
@@ -60,7 +71,7 @@ SearchViol(t) ==
 Init == l = 1 /\ viol = {}
 Step == /\ l <= Len(Trace) /\ l' = l + 1
         /\ LET t == Trace[l] IN
-           viol' = viol \cup (CASE t.ev = "quiesce" -> QuiesceViol(t) [] t.ev = "idhistory" -> HistViol(t) [] t.ev = "search" -> SearchViol(t))
+           viol' = viol \cup (CASE t.ev = "quiesce" -> QuiesceViol(t) [] t.ev = "pair" -> PairViol(t) [] t.ev = "idhistory" -> HistViol(t) [] t.ev = "search" -> SearchViol(t))
 Spec == Init /\ [][Step]_vars
 Report == l = Len(Trace) + 1 => PrintT(<<"VIOL", ToJson([n |-> Len(Trace), v |-> viol])>>)
 =============================================================================
